@@ -9,6 +9,7 @@ CONSTANTS
   RemotePrunes <- MC_RemotePrunes2
   Policies = {"auto", "explicit"}
   ResetHeights <- MC_ResetHeights
+  Defect_ReadBeforePermit = FALSE
   MaxPub = 2
   MaxPrune = 1
   MaxImp = 2
